@@ -11,7 +11,9 @@ pub const P_BUF: u8 = 2;
 pub const P_SKIP: u8 = 3;
 pub const P_LEN: u8 = 4;
 pub const P_NEXT: u8 = 5;
-const NP: u8 = 6;
+pub const P_FE1: u8 = 6;
+pub const P_FE2: u8 = 7;
+const NP: u8 = 8;
 
 pub const B_SINGLE: u8 = 1 << P_SINGLE;
 pub const B_CHUNK: u8 = 1 << P_CHUNK;
@@ -19,6 +21,8 @@ pub const B_BUF: u8 = 1 << P_BUF;
 pub const B_SKIP: u8 = 1 << P_SKIP;
 pub const B_LEN: u8 = 1 << P_LEN;
 pub const B_NEXT: u8 = 1 << P_NEXT;
+pub const B_FE1: u8 = 1 << P_FE1;
+pub const B_FE2: u8 = 1 << P_FE2;
 
 const OPS: usize = 2;
 /// chunk size of buffered pulls (concrete)
@@ -44,9 +48,12 @@ struct Res {
     bad_seq: bool,
     bad_len: bool,
     bad_more: bool,
+    /// for_each: bit p set = position p was visited; `twice` = some position was visited twice by this call
+    vis: u8,
+    twice: bool,
 }
 
-const R0: Res = Res { used: false, kind: 0, n: 0, some: false, begin: 0, count: 0, first: 0, last: 0, lenq: 0, no: false, bad_idx: false, bad_seq: false, bad_len: false, bad_more: false };
+const R0: Res = Res { used: false, kind: 0, n: 0, some: false, begin: 0, count: 0, first: 0, last: 0, lenq: 0, no: false, bad_idx: false, bad_seq: false, bad_len: false, bad_more: false, vis: 0, twice: false };
 
 fn do_op<P: Iterator<Item = usize>>(it: &ConIterOfIter<usize, P>, mask: u8, nmax: usize, len: usize) -> Res {
     let op: u8 = kani::any();
@@ -140,15 +147,37 @@ fn op_with<P: Iterator<Item = usize>>(it: &ConIterOfIter<usize, P>, mask: u8, op
             }
         }
         core::mem::forget(b);
+    } else if on(P_FE1) || on(P_FE2) {
+        let chunk = if op == P_FE1 { 1 } else { BUFN };
+        r.n = chunk;
+        let mut vis = 0u8;
+        let mut twice = false;
+        it.enumerate_for_each(chunk, |i, v| {
+            if i != v {
+                r.bad_idx = true;
+            }
+            if v < 8 {
+                if vis & (1 << v) != 0 {
+                    twice = true;
+                }
+                vis |= 1 << v;
+            } else {
+                r.bad_idx = true;
+            }
+        });
+        r.vis = vis;
+        r.twice = twice;
     } else if on(P_SKIP) {
         it.skip_to_end();
     } else if on(P_LEN) {
-        let l = it.try_get_len();
-        r.lenq = match l {
-            None => 0,
-            Some(k) => k + 1,
+        // one query only (has_more is derived from try_get_len): keeps the event budget small
+        let h = it.has_more();
+        r.lenq = match h {
+            HasMore::Maybe => 0,
+            HasMore::No => 1,
+            HasMore::Yes(k) => k + 1,
         };
-        r.no = it.has_more() == HasMore::No;
+        r.no = h == HasMore::No;
         let _ = len;
     }
     r.last = tbmc::last();
@@ -157,6 +186,9 @@ fn op_with<P: Iterator<Item = usize>>(it: &ConIterOfIter<usize, P>, mask: u8, op
 
 fn is_pull(k: u8) -> bool {
     k == P_SINGLE || k == P_CHUNK || k == P_BUF || k == P_NEXT
+}
+fn is_loop(k: u8) -> bool {
+    k == P_FE1 || k == P_FE2
 }
 
 /// Runs the operations of thread `t` on its own iterator object. First pass: symbolic choices;
@@ -274,6 +306,20 @@ fn run_n(mask: [u8; 4], nops: [usize; 4], nt: usize, lmax: usize, nmax: usize, h
                     any_none = true;
                 }
             }
+            if r.used && is_loop(r.kind) {
+                assert!(!r.bad_idx, "C12 C02: enumerate_for_each passed an index that is not the element's position");
+                assert!(!r.twice, "C12 C01: for_each visited a position twice");
+                let mut p = 0;
+                while p < 8 {
+                    if r.vis & (1 << p) != 0 {
+                        assert!(p < len, "C12 C01: for_each visited a position beyond the source");
+                        deliv[p] += 1;
+                    }
+                    p += 1;
+                }
+                // the loop only returns after a pull reported the end
+                any_none = true;
+            }
             o += 1;
         }
         t += 1;
@@ -372,12 +418,12 @@ fn t2_hb_single_single() {
     run2([B_SINGLE, B_SINGLE], [1, 1], 2, 2, true);
 }
 
-// @verif family=TBMC hook=1 ignorefn=TProbeA quick=C05,C04 thorough=C01,C09 timeout=1500 mem=16
-// @bounds kind=ConIterOfIter<usize,TProbe*> len<=1; thread 0: 2 x next_id_and_value(), thread 1: 1 x next_id_and_value() (pulls after the end was reported); <=7 events per thread + solo continuation; all interleavings
+// @verif family=TBMC hook=1 ignorefn=TProbeA quick=C05,C04 thorough=C01,C09 timeout=1800 mem=16
+// @bounds kind=ConIterOfIter<usize,TProbe*> len<=1; thread 0: 1 x next_id_and_value(), thread 1 (last; continues on its own after the trace): 2 x next_id_and_value() (pulls after the end was reported); <=7 guessed events per thread; all interleavings
 #[kani::proof]
 #[kani::unwind(12)]
-fn t2_single2_single() {
-    run2([B_SINGLE, B_SINGLE], [2, 1], 1, 2, false);
+fn t2_single_single2() {
+    run2([B_SINGLE, B_SINGLE], [1, 2], 1, 2, false);
 }
 
 // @verif family=TBMC hook=1 ignorefn=TProbeA quick=C06 thorough=C01,C09 timeout=1500 mem=16
@@ -452,18 +498,26 @@ fn t3_single_single_single() {
     run_n([B_SINGLE, B_SINGLE, B_SINGLE, 0], [1, 1, 1, 0], 3, 2, 2, false);
 }
 
-// @verif family=TBMC hook=1 ignorefn=TProbeA thorough=C01,C04,C05,C09 timeout=5400 mem=24
-// @bounds kind=ConIterOfIter<usize,TProbe*> len<=2; 2 threads x 2 next_id_and_value(); <=7 events per thread + solo continuation; all interleavings
-#[kani::proof]
-#[kani::unwind(12)]
-fn t2_single2_single2() {
-    run2([B_SINGLE, B_SINGLE], [2, 2], 2, 2, false);
-}
-
 // @verif family=TBMC hook=1 ignorefn=TProbeA thorough=C06,C09 timeout=5400 mem=24
-// @bounds kind=ConIterOfIter<usize,TProbe*> len<=2; thread 0: 2 x next_id_and_value(), thread 1: skip_to_end then has_more (the skipper is the last thread); <=7 events per thread + solo; all interleavings
+// @bounds kind=ConIterOfIter<usize,TProbe*> len<=2; thread 0: next_id_and_value(), thread 1 (last): skip_to_end then has_more; <=7 guessed events per thread + solo; all interleavings
 #[kani::proof]
 #[kani::unwind(12)]
 fn t2_single_skip() {
-    run2([B_SINGLE, B_SKIP | B_LEN], [2, 2], 2, 2, false);
+    run2([B_SINGLE, B_SKIP | B_LEN], [1, 2], 2, 2, false);
+}
+
+// @verif family=TBMC hook=1 ignorefn=TProbeA quick=C12 thorough=C01,C02,C09 timeout=2400 mem=16
+// @bounds kind=ConIterOfIter<usize,TProbe*> len<=2; thread 0: next_id_and_value(); thread 1 (last, continues on its own after the trace): enumerate_for_each(1, ..) until the end; <=7 guessed events per thread; all interleavings of the pull with the loop
+#[kani::proof]
+#[kani::unwind(12)]
+fn t2_single_foreach1() {
+    run2([B_SINGLE, B_FE1], [1, 1], 2, 2, false);
+}
+
+// @verif family=TBMC hook=1 ignorefn=TProbeA thorough=C12,C01,C02,C09 timeout=3600 mem=16
+// @bounds kind=ConIterOfIter<usize,TProbe*> len<=2; thread 0: next_id_and_value(); thread 1 (last): enumerate_for_each(2, ..) (buffered chunks of 2) until the end; <=7 guessed events per thread; all interleavings
+#[kani::proof]
+#[kani::unwind(12)]
+fn t2_single_foreach2() {
+    run2([B_SINGLE, B_FE2], [1, 1], 2, 2, false);
 }
